@@ -23,7 +23,7 @@ type c08Rm struct {
 type c08Root struct {
 	V   bool   `short:"v" long:"vv"`
 	X   bool   `long:"xx"`
-	Add c08Add `command:"add" alias:"a"`
+	Add c08Add `command:"add" alias:"a" alias:"plus"`
 	Rm  c08Rm  `command:"rm" alias:"remove"`
 }
 
@@ -42,7 +42,7 @@ func H_C08_tree(v *V) {
 	var words []string
 	switch path {
 	case 1, 2, 3:
-		words = append(words, []string{"add", "a"}[v.Choice(2)])
+		words = append(words, []string{"add", "a", "plus"}[v.Choice(3)])
 		if path == 2 {
 			words = append(words, []string{"sub", "s1", "s2"}[v.Choice(3)])
 		} else if path == 3 {
@@ -162,7 +162,7 @@ func H_C08_word(v *V) {
 	var argv []string
 	if level == 0 {
 		p.SubcommandsOptional = optional
-		v.Assume(W != "add" && W != "a" && W != "rm" && W != "remove")
+		v.Assume(W != "add" && W != "a" && W != "plus" && W != "rm" && W != "remove")
 		argv = []string{"-v", W}
 	} else {
 		p.Find("add").SubcommandsOptional = optional
